@@ -35,7 +35,13 @@ Inductive prog (A : Type) : Type :=
    accept candidate i iff p * fst < snd.   cands = [(maxweight_i, weight_i)] *)
 | ChooseAcc (cands : list (Q * Q)) (f : option nat -> prog A)
 (* `rng.gen::<f64>() < chance` where chance is only known to lie in [lo, hi] *)
-| BernF (lo hi : Q) (f : bool -> prog A).
+| BernF (lo hi : Q) (f : bool -> prog A)
+(* rng.next_u64().trailing_ones(): n with probability 2^-(n+1), n = 64 with 2^-64 (rvb.rs contiguous_bits) *)
+| TrailOnes (f : N -> prog A)
+(* `p >= 1.0 || rng.gen_bool(p)` where p is an f64 product whose exact value is p; [sure] = the f64
+   computation is known to be exact (no rounding), otherwise a value within tolerance of 1 is
+   indeterminate because the implementation may or may not draw a word *)
+| BernX (sure : bool) (p : Q) (f : bool -> prog A).
 
 Arguments Ret {A} a.
 
@@ -50,6 +56,8 @@ Fixpoint bind {A B} (m : prog A) (k : A -> prog B) : prog B :=
   | Choose ws f => Choose ws (fun i => bind (f i) k)
   | ChooseAcc cs f => ChooseAcc cs (fun i => bind (f i) k)
   | BernF lo hi f => BernF lo hi (fun b => bind (f b) k)
+  | TrailOnes f => TrailOnes (fun n => bind (f n) k)
+  | BernX s p f => BernX s p (fun b => bind (f b) k)
   end.
 
 Notation "x <- m ;; k" := (bind m (fun x => k)) (at level 61, m at next level, right associativity).
@@ -68,6 +76,8 @@ Definition qclip (q : Q) : Q := if Qle_bool q 0 then 0 else qmin1 q.
 (* probability that the clipped ratio form fires *)
 Definition ratio_prob (num den : Q) : Q :=
   if Qle_bool num den then (if Qle_bool den 0 then 1 else qclip (num / den)) else 1.
+
+Fixpoint qpow2 (n : nat) : Q := match n with O => 1 | S k => 2 * qpow2 k end.
 
 Fixpoint denote {A} (m : prog A) : dist A :=
   match m with
@@ -94,6 +104,11 @@ Fixpoint denote {A} (m : prog A) : dist A :=
   | BernF lo hi f =>
       (* only meaningful when lo == hi; theorems instantiate it that way *)
       dscale (qclip lo) (denote (f true)) ++ dscale (1 - qclip lo) (denote (f false))
+  | TrailOnes f =>
+      flat_map (fun i => dscale (1 / qpow2 (S i)) (denote (f (N.of_nat i)))) (seq 0 64)
+      ++ dscale (1 / qpow2 64) (denote (f 64%N))
+  | BernX _ p f =>
+      dscale (qclip p) (denote (f true)) ++ dscale (1 - qclip p) (denote (f false))
   end.
 
 (* probability mass of the outcomes satisfying a boolean predicate *)
@@ -185,6 +200,15 @@ Fixpoint cum_index (ws : list Q) (x : Q) (i : nat) : option nat + unit :=
       end
   end.
 
+(* number of trailing one bits *)
+Fixpoint trailing_ones_pos (p : positive) : N :=
+  match p with
+  | xI q => N.succ (trailing_ones_pos q)
+  | xO _ => 0%N
+  | xH => 1%N
+  end.
+Definition trailing_ones (v : N) : N := match v with N0 => 0%N | Npos p => trailing_ones_pos p end.
+
 Fixpoint run_tape {A} (m : prog A) (tape : list word) : res A :=
   match m with
   | Ret a => RDone a tape
@@ -270,4 +294,24 @@ Fixpoint run_tape {A} (m : prog A) (tape : list word) : res A :=
       | [] => RBad 1
       | _ => RBad 2
       end
+  | TrailOnes f =>
+      match tape with
+      | W64 v :: rest => run_tape (f (trailing_ones v)) rest
+      | [] => RBad 1
+      | _ => RBad 2
+      end
+  | BernX sure p f =>
+      if Qle_bool 1 p then
+        (if sure || Qle_bool (1 + tolden) p then run_tape (f true) tape else RIndet)
+      else if negb sure && Qlt_bool (1 - tolden) p then RIndet
+      else match tape with
+           | W64 v :: rest =>
+               match cmp_tol (u64_to_unit v) p with
+               | TYes => run_tape (f true) rest
+               | TNo => run_tape (f false) rest
+               | TMaybe => RIndet
+               end
+           | [] => RBad 1
+           | _ => RBad 2
+           end
   end.
